@@ -372,21 +372,21 @@ func (c cfg) ruleSharded(m map[string]int) (bool, string) {
 // ---------------------------------------------------------------- the system under exploration
 
 type sys struct {
-	r            *eng.Run
-	c            cfg
-	cfgStr       string
-	dserv        ipld.DAGService
-	dir          uio.Directory
-	model        map[string]int
-	path         []string
-	poisoned     bool
-	reloaded     bool // a reload happened on this path
-	key          string
+	r        *eng.Run
+	c        cfg
+	cfgStr   string
+	dserv    ipld.DAGService
+	dir      uio.Directory
+	model    map[string]int
+	path     []string
+	poisoned bool
+	reloaded bool // a reload happened on this path
+	key      string
 	// fork: a second directory built from the LIVE GetNode() object of the first;
 	// the first stays alive as shadow and must keep showing its own entries
-	shadow      uio.Directory
-	shadowModel map[string]int
-	shadowCid   cid.Cid
+	shadow       uio.Directory
+	shadowModel  map[string]int
+	shadowCid    cid.Cid
 	convertedNow bool   // the last operation converted basic<->HAMT
 	wasHamt      bool   // the directory has been a HAMT at some point of this history
 	lostBy       string // operation and conversion in which the configured threshold disappeared
@@ -545,7 +545,9 @@ func (s *sys) Ops() []string {
 		}
 	}
 	ops = append(ops, "reload")
-	if s.c.layout == "dyn" && s.shadow == nil {
+	// only while basic (the only layout whose GetNode() hands out a live, mutable
+	// node) and only where at least one edit can still follow within the depth bound
+	if s.c.layout == "dyn" && s.shadow == nil && s.kind() == "basic" && len(s.path) <= eng.Pick(s.r, 3, 5) {
 		ops = append(ops, "fork")
 	}
 	if h, ok := under(s.dir).(*uio.HAMTDirectory); ok && strings.Contains(h.VerifTreeDump(), "L(") {
